@@ -311,11 +311,214 @@ def oracle_inventory(inp):
     return None
 
 
-ORACLES = {'read': oracle_read, 'write': oracle_write, 'inventory': oracle_inventory}
+
+# ---------------------------------------------------------------------------
+# history stage: sequences of steps in ONE process on reused Ipmi objects (and on objects
+# created after others) against controllers whose FRU memories persist.  Client steps: read
+# (range / whole), write, inventory, info - some relying on the defaults (fru_id=0, offset=0,
+# write_length as last set on the object) -, 'target' (ipmi.target switched to another
+# controller).  Device-side steps: 'dev_set' (the FRU behind an id is replaced / resized).
+# Every client step is judged against the state of the addressed controller AT THAT MOMENT,
+# which the oracle keeps itself (so a shrunk history is judged as correctly as the original).
+class Controllers:
+    """routes a request to the FRU device of the controller the request's target names"""
+
+    def __init__(self, ctrl, limit, rej):
+        self.devs = {int(a): FruDevice({int(k): bytes.fromhex(v) for k, v in c['mems'].items()}, limit, rej,
+                                       max_requests=300000) for a, c in ctrl.items()}
+
+    def __call__(self, netfn, cmd, lun, data, req):
+        addr = getattr(getattr(req, 'target', None), 'ipmb_address', None)
+        dev = self.devs.get(addr)
+        if dev is None:
+            return b'\xc3'
+        return dev(netfn, cmd, lun, data, req)
+
+
+def _apply_call(ipmi, c):
+    op = c['op']
+    kw = {}
+    if c.get('id') is not None:
+        kw['fru_id'] = c['id']
+    if op == 'read':
+        if c.get('off') is not None:
+            kw.update(offset=c['off'], count=c['cnt'])
+        return ipmi.read_fru_data(**kw)
+    if op == 'write':
+        if c.get('wl') is not None:
+            ipmi.write_length = c['wl']
+        if c.get('off') is not None:
+            kw['offset'] = c['off']
+        return ipmi.write_fru_data(bytes.fromhex(c['data']), **kw)
+    if op == 'inventory':
+        return ipmi.get_fru_inventory(**kw)
+    if op == 'info':
+        return ipmi.get_fru_inventory_area_info(**kw)
+    raise ValueError(op)
+
+
+def exec_history(inp):
+    """Run the steps; yields per client call: (n, call, outcome, exchanges, memories of the addressed
+    controller before the call, its device, effective write_length)"""
+    import pyipmi
+    net = Controllers(inp['ctrl'], inp.get('limit', 255), inp.get('rej', 0xca))
+    objs, wls, tgt = {}, {}, {}
+    for n, c in enumerate(inp['calls']):
+        if c['op'] == 'dev_set':
+            d = net.devs.get(int(c['addr']))
+            if d is not None:
+                d.mems[int(c['id'])] = bytearray(bytes.fromhex(c['mem']))
+            continue
+        o = c.get('obj', 'A')
+        if o not in objs:
+            objs[o] = F.connect(net)
+            wls[o], tgt[o] = 16, 0x20
+        ipmi, itf = objs[o]
+        if c['op'] == 'target':
+            ipmi.target = pyipmi.Target(c['addr'])
+            tgt[o] = c['addr']
+            continue
+        if c['op'] == 'write' and c.get('wl') is not None:
+            wls[o] = c['wl']
+        dev = net.devs.get(tgt[o])
+        before = {k: bytes(v) for k, v in dev.mems.items()} if dev else {}
+        start = len(itf.log)
+        try:
+            out = ('ok', _apply_call(ipmi, c))
+        except Exception as e:  # noqa
+            out = ('err', e)
+        yield n, c, out, itf.log[start:], before, dev, wls[o], tgt[o]
+
+
+def image_well_formed(img):
+    """independent structural validation of a FRU image: header and area checksums, areas and
+    the multi-record chain inside the image (then get_fru_inventory is expected to succeed)"""
+    if len(img) < 8 or sum(img[:8]) % 256 or (img[0] & 0x0f) != 1:
+        return False
+    for ix in (2, 3, 4):
+        off = img[ix] * 8
+        if off:
+            if off + 2 > len(img):
+                return False
+            n = img[off + 1] * 8
+            if n < 8 or off + n > len(img) or (img[off] & 0x0f) != 1 or sum(img[off:off + n]) % 256:
+                return False
+    off = img[5] * 8
+    if off:
+        pos = off
+        while True:
+            if pos + 5 > len(img) or sum(img[pos:pos + 5]) % 256:
+                return False
+            ln = img[pos + 2]
+            if pos + 5 + ln > len(img) or (sum(img[pos + 5:pos + 5 + ln]) + img[pos + 3]) % 256:
+                return False
+            last = img[pos + 1] & 0x80
+            pos += 5 + ln
+            if last:
+                break
+    return True
+
+
+def judge_fru_call(c, out, seg, ref, dev, wl):
+    """(failure class, message) or None; ref = the oracle's own copy of the addressed controller's
+    memories, updated here by writes"""
+    from pyipmi.errors import CompletionCodeError
+    i = c['id'] if c.get('id') is not None else 0
+    bad = [x for x in seg if _req_id(x) != i]
+    if bad:
+        return 'wrong-fru-id', 'request %s addresses FRU %s, not %d' % (bad[0].data.hex(), _req_id(bad[0]), i)
+    mem = bytes(ref.get(i, b''))
+    op = c['op']
+    if op == 'info':
+        if out[0] == 'err' or out[1] != len(mem):
+            return 'wrong-size', 'area size %r, FRU %d stores %d bytes' % (out[1], i, len(mem))
+    elif op == 'read':
+        whole = c.get('off') is None
+        off, cnt = (0, len(mem)) if whole else (c['off'], c['cnt'])
+        if off + cnt > len(mem):
+            if out[0] != 'err' or not isinstance(out[1], CompletionCodeError):
+                return 'range-not-refused', 'range %d+%d lies outside the %d bytes FRU %d stores, got %r' % (off, cnt, len(mem), i, out[1])
+        elif out[0] == 'err':
+            return ('whole-raises' if whole else 'range-raises'), 'raised %r, FRU %d stores %d bytes' % (out[1], i, len(mem))
+        elif bytes(out[1]) != mem[off:off + cnt]:
+            return (('whole' if whole else 'range') + '-wrong-bytes',
+                    'returned %d bytes, FRU %d stores %d in that range now (equal prefix: %s)'
+                    % (len(out[1]), i, cnt, bytes(out[1]) == mem[off:off + len(out[1])]))
+    elif op == 'write':
+        data, off = bytes.fromhex(c['data']), c.get('off') or 0
+        m = ref.setdefault(i, bytearray())
+        fail = False
+        for k in range(0, len(data), wl):
+            ch = data[k:k + wl]
+            if off + k + len(ch) > len(m):
+                fail = True
+                break
+            m[off + k:off + k + len(ch)] = ch
+        if fail != (out[0] == 'err'):
+            return 'write-outcome', ('raised %r although every chunk fits' % (out[1],) if out[0] == 'err'
+                                     else 'no error although a chunk lies outside the %d bytes of FRU %d' % (len(m), i))
+        for k, v in ref.items():
+            if bytes(dev.mems.get(k, b'')) != bytes(v):
+                return 'write-memory', 'memory of FRU %d differs from the expected content' % k
+    elif op == 'inventory':
+        if image_well_formed(mem):
+            if out[0] == 'err':
+                return 'inventory-raises', 'raised %r on a well-formed inventory' % (out[1],)
+            lay = image_layout(mem)
+            for name, g in zip(AREAS, _inv_canon(out[1])):
+                want = None if name not in lay else mem[lay[name][0]:lay[name][0] + lay[name][1]]
+                if g != want:
+                    return 'inventory-area', '%s area handed to the parser differs from the area FRU %d stores' % (name, i)
+    return None
+
+
+def oracle_fru_seq(inp):
+    """every client step behaves as if it were the only one, on the state the controllers are in then"""
+    ref = {int(a): {int(k): bytearray(bytes.fromhex(v)) for k, v in c['mems'].items()} for a, c in inp['ctrl'].items()}
+    pending = {}
+
+    def settle(upto):
+        for n, c in enumerate(inp['calls'][:upto]):
+            if c['op'] == 'dev_set' and n not in pending:
+                pending[n] = True
+                if int(c['addr']) in ref:
+                    ref[int(c['addr'])][int(c['id'])] = bytearray(bytes.fromhex(c['mem']))
+    for n, c, out, seg, before, dev, wl, addr in exec_history(inp):
+        settle(n)
+        try:
+            r = judge_fru_call(c, out, seg, ref.get(addr, {}), dev, wl)
+        except Exception as e:  # noqa
+            r = ('unjudgeable', 'result could not be examined: %r' % (e,))
+        if r and inp.get('only_key') in (None, r[0]):
+            return 'step %d (%s) of the sequence: %s' % (n, {k: v for k, v in c.items() if k not in ('data', 'mem')}, r[1]), r[0]
+    return None
+
+
+def _fru_seq(inp):
+    r = oracle_fru_seq(inp)
+    return r[0] if r else None
+
+
+ORACLES = {'read': oracle_read, 'write': oracle_write, 'inventory': oracle_inventory, 'fru_seq': _fru_seq}
+
+
+def _safe(f):
+    def g(inp):
+        try:
+            return f(inp)
+        except Exception as e:  # noqa  (an oracle never crashes on what the implementation returned)
+            return 'the result could not be examined: %r' % (e,)
+    return g
+
+
+ORACLES = {k: _safe(v) for k, v in ORACLES.items()}
 
 
 def replay(data):
     r = data['replay']
+    if 'oracle' not in r:
+        print('replay file names a broken proof obligation / correspondence, not an input')
+        return False
     return ORACLES[r['oracle']](r['input']) is None
 
 
@@ -584,6 +787,106 @@ def run(ctx):
                             key='_read_fru_area:wrong-bytes-or-id', what='area %s of %s read wrongly' % (nm, name),
                             replay={'oracle': 'inventory', 'input': inp}))
 
+
+    # ---------------------------------------------------------------- history stage
+    good = [im for (_, im, ok) in images if ok and len(im) <= 1200] or [im for (_, im, ok) in images if ok]
+    for hno in range(5 if q else 30):
+        ids = [0] + rng.sample(range(1, 256), 2)
+        addrs = [0x20, rng.choice([0x82, 0x84, 0x72])]
+        cur = {a: {j: rng.choice(good) for j in ids} for a in addrs}      # generator's view of the memories
+        ctrl = {str(a): {'mems': hexmems(m)} for a, m in cur.items()}
+        tgt = {'A': 0x20, 'B': 0x20}
+        limit, rej = rng.choice([2, 5, 16, 31, 255]), rng.choice(REJ)
+        calls = []
+
+        def client_call(op=None, obj=None, i='rand'):
+            obj = obj or rng.choice('AAB')
+            i = rng.choice(ids + [None, None]) if i == 'rand' else i    # None: rely on the default fru_id=0
+            mem = cur[tgt[obj]][i if i is not None else 0]
+            size = len(mem)
+            op = op or rng.choice(['read', 'read', 'whole', 'whole', 'write', 'inventory', 'info'])
+            c = {'op': op, 'id': i, 'obj': obj}
+            if op == 'whole':
+                c.update(op='read', off=None)
+            elif op == 'read':
+                c['off'] = rng.randrange(0, size)
+                c['cnt'] = rng.randrange(0, min(90, size - c['off']) + 1)
+            elif op == 'write':
+                lay = image_layout(mem)            # write behind the areas: inventories stay well-formed
+                end = max([8] + [o + n for (o, n) in lay.values()])
+                if size - end < 4:
+                    c.update(op='read', off=None)
+                else:
+                    off = rng.randrange(end, size - 1)
+                    data = rnd(rng.randrange(1, min(70, size - off) + 1))
+                    c.update(off=off, data=data.hex(), wl=rng.choice([None, None, 1, 7, 16, 32, 200]))
+                    m = bytearray(mem)
+                    m[off:off + len(data)] = data
+                    cur[tgt[obj]][i if i is not None else 0] = bytes(m)
+            calls.append(c)
+
+        def dev_set(addr, i):
+            old = cur[addr][i]
+            new = rng.choice([im for im in good if len(im) != len(old)] or good)
+            if rng.random() < 0.3:
+                new = new + rnd(rng.choice([8, 64]))                       # same layout, other size
+            cur[addr][i] = new
+            calls.append({'op': 'dev_set', 'addr': addr, 'id': i, 'mem': new.hex()})
+
+        def switch(obj):
+            tgt[obj] = addrs[1] if tgt[obj] == addrs[0] else addrs[0]
+            calls.append({'op': 'target', 'obj': obj, 'addr': tgt[obj]})
+
+        for _ in range(rng.randrange(8, 16)):
+            r = rng.random()
+            if r < 0.12:
+                dev_set(rng.choice(addrs), rng.choice(ids))
+            elif r < 0.22:
+                switch(rng.choice('AB'))
+            else:
+                client_call()
+        # directed patterns on ONE object: full read / size / inventory of an id, then the FRU behind that
+        # id changes on the device side (replaced, or the target is switched), then the same again
+        for pat in range(2):
+            obj, i = rng.choice('AB'), rng.choice(ids + [None])
+            first = rng.choice(['whole', 'info', 'inventory'])
+            client_call(first, obj, i)
+            if rng.random() < 0.5:
+                dev_set(tgt[obj], i if i is not None else 0)
+            else:
+                switch(obj)
+            client_call(rng.choice(['whole', 'inventory', 'whole']), obj, i)
+            client_call()
+        inp = {'ctrl': ctrl, 'limit': limit, 'rej': rej, 'calls': calls}
+        res.evaluations += len(calls)
+        r = oracle_fru_seq(inp)
+        if r:
+            key = 'fru-history:' + r[1]
+            if key not in fails:
+                extra = {'ctrl': ctrl, 'limit': limit, 'rej': rej, 'only_key': r[1]}
+                seq = C.shrink_history('C10', 'fru_seq', calls, extra=extra) or calls
+                inp2 = dict(extra, calls=seq)
+                fails[key] = C.Violation(key=key, what=(_fru_seq(inp2) or r[0]) + ' [history of %d step(s)]' % len(seq),
+                                         replay={'oracle': 'fru_seq', 'input': inp2})
+        # correspondence: every client step of the history against the stateless model and the Gallina device
+        for n, c, out, seg, before, dev, wl, addr in exec_history(inp):
+            i = c['id'] if c.get('id') is not None else 0
+            after = c_mems({k: bytes(v) for k, v in dev.mems.items()})
+            devt = 'chk_dev %s %d %d [] ex %s' % (c_mems(before), limit, rej, after)
+            if c['op'] == 'read':
+                t = 'chk_read %s %d ex %s' % (c_rng(c.get('off'), c.get('cnt')), i, c_res(out, C.c_hex))
+            elif c['op'] == 'write':
+                t = 'chk_write %d %s %d %d ex %s' % (wl, C.c_hex(bytes.fromhex(c['data'])), c.get('off') or 0, i,
+                                                    c_res(out, lambda v: 'tt'))
+            elif c['op'] == 'info':
+                t = 'chk_info %d ex %s' % (i, c_res(out, str))
+            else:
+                t = 'chk_inv %s %d ex %s' % (parse_table(before.get(i, b'')), i, c_res(out, fmt_inv))
+            add('(let ex := %s in %s && %s)' % (c_ex(seg), t, devt), {'kind': 'history', 'history': hno, 'step': n,
+                                                                      'op': c['op'], 'id': c.get('id'), 'obj': c.get('obj')})
+            D.add(('hist', hno, n, c['op'], c.get('id'), c.get('off'), c.get('cnt'), c.get('wl')), True,
+                  'history %s%s' % (c['op'], ' default-id' if c.get('id') is None else ''))
+
     # the 64 KiB cases are 100k-character literals: give the coqc children the full stack
     try:
         import resource
@@ -594,10 +897,10 @@ def run(ctx):
     # large cases get a case file each, the rest is sharded
     small_ix = [i for i, t in enumerate(terms) if len(t) < 200000]
     big_ix = [i for i, t in enumerate(terms) if len(t) >= 200000]
-    f1, errors = C.coq_cases('C10', 'Lib.Prog Model.FruIO Corr.C10', [terms[i] for i in small_ix], shard=60 if q else 40)
+    f1, errors = C.coq_cases('C10_p%d' % os.getpid(), 'Lib.Prog Model.FruIO Corr.C10', [terms[i] for i in small_ix], shard=60 if q else 40)
     failing = [small_ix[i] for i in f1]
     if big_ix:
-        f2, e2 = C.coq_cases('C10big', 'Lib.Prog Model.FruIO Corr.C10', [terms[i] for i in big_ix], shard=1, timeout=1100)
+        f2, e2 = C.coq_cases('C10big_p%d' % os.getpid(), 'Lib.Prog Model.FruIO Corr.C10', [terms[i] for i in big_ix], shard=1, timeout=1100)
         failing += [big_ix[i] for i in f2]
         errors += e2
     failing.sort()
